@@ -13,9 +13,19 @@
     Opened.state                bytes of Data.fs after the open, `_pos`, `_index`, `_ltid`, `_oid`
     openDir / apiStep / runApi  directory level: which files an open and each public method touch
 -/
-import Proofs.IndexCacheSanity
+import Proofs.IndexCacheCrash
 namespace Props.C09
 open ZodbModel ZodbModel.Format ZodbModel.Disk ZodbModel.IndexCache
+
+/-- Coherence with C01: opening without an index IS the recovery of C01 (`Disk.recover`), so every
+    statement of C01 about crash images carries over to the index variants below. -/
+theorem open_without_index_is_recover (b : Bytes) :
+    (openWith false b none).map (fun o => (o.bytes, o.pos, o.index, o.ltid, o.how))
+      = (recover b).map (fun r => (r.bytes, r.pos, r.index, r.ltid, r.how)) := by
+  unfold openWith restoreIndex recover
+  cases readIndex b 4 [] 0 with
+  | error e => rfl
+  | ok r => rfl
 
 /-- Scanning from the saved position with the saved map = scanning from 4 with the empty map, on
     every file that still begins with the data the index was saved for, followed by ANYTHING
@@ -53,6 +63,19 @@ theorem index_is_cache_partial (ro : Bool) (cs : List FTxn) (hw : FileWF cs) (ex
   unfold openFile
   simp only [Option.bind_some, hl, Option.map_some, Option.bind_none, Option.map_none]
   exact Proofs.IndexCache.openWith_saved_eq ro cs hw ext
+
+/-- C09 × C01 — "all crash states of C01 reopened with every such index": take ANY history
+    `ops1 ++ ops2` of two-phase commits, save the index after `ops1` (any earlier moment), crash at
+    ANY later cut (event prefix + byte prefix of a write): opening the crash image with that index
+    gives exactly the outcome of opening it without (which, by C01 `crash_prefix`, is the cleanly
+    written file of a prefix of the commits that contains every returned one). -/
+theorem index_is_cache_on_crash_images (ro : Bool) (cs : List FTxn) (ops1 ops2 : List Op)
+    (hcs : FileWF cs) (hops : OpsWF cs (ops1 ++ ops2)) (k nb : Nat) :
+    (openWith ro (image (encodeFile cs) (trace cs (ops1 ++ ops2)) ((trace cs ops1).length + k) nb)
+        (some (saveIndex (cs ++ newCommits cs ops1)))).map Opened.state
+      = (openWith ro (image (encodeFile cs) (trace cs (ops1 ++ ops2)) ((trace cs ops1).length + k) nb)
+          none).map Opened.state :=
+  Proofs.IndexCache.open_crash_image_with_saved_index ro cs ops1 ops2 hcs hops k nb
 
 /-- … and an index the sanity check rejects is ignored altogether, whatever it contains. -/
 theorem rejected_index_ignored (ro : Bool) (file : Bytes) (s : SavedIndex)
